@@ -32,6 +32,11 @@ pub enum PMut {
     EndMarker(u16, u8),
     /// damage one checksum byte of message i
     CrcByte(u16, u8),
+    /// re-encode the checksum field of message i dishonestly: 0 = drop its first byte and shorten the TLF
+    /// (`63 HH LL` -> `62 LL`), 1 = drop its second byte (`62 HH`), 2 = widen it with a leading zero byte
+    /// (`64 00 HH LL`, no longer a 16-bit field), 3 = one-byte field widened honestly (`62 LL` -> `63 00 LL`,
+    /// same value: still valid)
+    CrcField(u16, u8),
 }
 
 fn idx(x: u16, len: usize) -> usize {
@@ -79,11 +84,12 @@ pub fn pmut() -> impl Strategy<Value = PMut> {
         3 => (any::<u16>(), 0u8..8).prop_map(|(i, t)| PMut::TypeNibble(i, t)),
         3 => (any::<u16>(), any::<u8>()).prop_map(|(i, v)| PMut::Tag(i, v)),
         8 => (any::<u16>(), lying_value()).prop_map(|(i, (v, n))| PMut::LyingTlf(i, v, n)),
-        3 => (any::<u16>(), 1u16..=u16::MAX, 9u8..13).prop_map(|(i, hi, n)| PMut::WrapTlf(i, hi, n)),
+        3 => (any::<u16>(), 1u16..=u16::MAX, prop_oneof![4 => 9u8..13, 1 => 13u8..19, 1 => 19u8..41]).prop_map(|(i, hi, n)| PMut::WrapTlf(i, hi, n)),
         2 => (any::<u16>(), prop_oneof![Just(0x80u8), Just(0x00u8), Just(0x01u8), Just(0xffu8), Just(0x76u8)], prop_oneof![4 => 1u16..20, 2 => 250u16..262, 1 => 20u16..600]).prop_map(|(p, b, l)| PMut::InsertRun(p, b, l)),
         1 => (any::<u16>(), 1u8..5).prop_map(|(i, b)| PMut::TruncateAtMsgEnd(i, b)),
         2 => (any::<u16>(), 1u8..=255).prop_map(|(i, v)| PMut::EndMarker(i, v)),
         2 => (any::<u16>(), 1u8..=255).prop_map(|(i, v)| PMut::CrcByte(i, v)),
+        2 => (any::<u16>(), 0u8..4).prop_map(|(i, v)| PMut::CrcField(i, v)),
     ]
 }
 
@@ -202,12 +208,22 @@ pub fn apply(bytes: &mut Vec<u8>, w: &Written, m: &PMut) -> String {
             let t = &w.tlfs[idx(*i, w.tlfs.len())];
             if t.pos + t.n <= bytes.len() && t.ty != crate::refmodel::sml::TY_BOOL {
                 if let Ok(old) = crate::refmodel::sml::read_tlf(&bytes[t.pos..], t.pos) {
-                    let nn = (*nib).clamp(9, 12) as usize;
+                    let nn = (*nib).clamp(9, 40) as usize;
                     let low = if t.ty == TY_LIST { old.len } else { old.len + nn as u64 };
-                    let max_hi = (1u64 << (4 * (nn - 8))) - 1;
-                    let hi = 1 + (*hi as u64 - 1) % max_hi;
                     if low <= u32::MAX as u64 {
-                        let new = tlf_bytes(t.ty, (hi << 32) | low, nn);
+                        let new = if nn <= 12 {
+                            let max_hi = (1u64 << (4 * (nn - 8))) - 1;
+                            let hi = 1 + (*hi as u64 - 1) % max_hi;
+                            tlf_bytes(t.ty, (hi << 32) | low, nn)
+                        } else {
+                            // longer fields: the honest value in the low groups, zeros above it, and one non-zero
+                            // group 8..nn-1 groups before the end (beyond 2^32, 2^64 or 2^128 - wherever a wider
+                            // accumulator would wrap)
+                            let mut f = tlf_bytes(t.ty, low, nn);
+                            let d = 8 + (*hi as usize) % (nn - 8);
+                            f[nn - 1 - d] |= 1 + ((*hi >> 8) as u8 % 15);
+                            f
+                        };
                         bytes.splice(t.pos..t.pos + t.n, new);
                     }
                 }
@@ -233,6 +249,39 @@ pub fn apply(bytes: &mut Vec<u8>, w: &Written, m: &PMut) -> String {
                 bytes[m.crc_val] ^= *v;
             }
             "crc-byte".into()
+        }
+        PMut::CrcField(i, mode) => {
+            if w.msgs.is_empty() {
+                return "noop".into();
+            }
+            let m = &w.msgs[idx(*i, w.msgs.len())];
+            // only for the plain encodings `63 HH LL` / `62 LL` (one TLF byte directly before the value)
+            if m.crc_val + m.crc_width <= bytes.len() && m.crc_val == m.crc_tlf + 1 {
+                match (m.crc_width, mode % 4) {
+                    (2, 0) => {
+                        bytes[m.crc_tlf] = 0x62;
+                        bytes.remove(m.crc_val);
+                    }
+                    (2, 1) => {
+                        bytes[m.crc_tlf] = 0x62;
+                        bytes.remove(m.crc_val + 1);
+                    }
+                    (2, 2) => {
+                        bytes[m.crc_tlf] = 0x64;
+                        bytes.insert(m.crc_val, 0x00);
+                    }
+                    (1, 3) | (1, 2) => {
+                        bytes[m.crc_tlf] = 0x63;
+                        bytes.insert(m.crc_val, 0x00);
+                    }
+                    (1, _) => {
+                        bytes[m.crc_tlf] = 0x61;
+                        bytes.remove(m.crc_val);
+                    }
+                    _ => {}
+                }
+            }
+            "crc-field".into()
         }
     }
 }
